@@ -81,6 +81,7 @@ OPTION_SPACE = {
     'in_place': [False, True],
     'interleave': [False, True],
     'boolean_ints': [False, True],
+    'rownumber_is_index': [True, True, False],      # False: the file-based entry points' RowNumber column (1-based position)
 }
 
 
@@ -169,6 +170,10 @@ def one_run(rnd, df, cdict, outpath, opts, eps):
             key = 'id' if 'id' in fdf.columns else ('Index' if 'Index' in fdf.columns else None)
             if key:
                 ev['filerows'] = [pos.get(int(x), 10**6 + int(x)) + 1 for x in fdf[key].tolist()]
+                if 'RowNumber' in fdf.columns and [int(x) for x in fdf['RowNumber'].tolist()] != ev['filerows']:
+                    ev['raised'] = 'output file: RowNumber and %s name different records' % key
+            elif 'RowNumber' in fdf.columns:
+                ev['filerows'] = [int(x) for x in fdf['RowNumber'].tolist()]
             else:
                 ev['raised'] = 'output file has neither id nor Index column'
             ev['filecols'] = [str(c) for c in fdf.columns]
